@@ -2,7 +2,11 @@
 """print the prompt for a seeding agent (contains only the property text and the worktree path)"""
 import json, sys
 pid = sys.argv[1]
+rnd = sys.argv[2] if len(sys.argv) > 2 else '1'
 wt = '/tmp/seed/' + pid
+import os
+ideas = json.load(open('/tmp/seed_ideas.json')).get(pid, []) if rnd != '1' and os.path.exists('/tmp/seed_ideas.json') else []
+avoid = ('\n\nAn earlier round already produced the following changes for this property; yours must be DIFFERENT in mechanism and code site (do not repeat or vary these):\n' + '\n'.join('  - ' + i for i in ideas)) if ideas else ''
 p = [json.loads(l) for l in open('/verif/properties.jsonl') if json.loads(l)['id'] == pid][0]
 print(f"""You are testing how well a semantic property of the Python library rsatoolbox (Representational Similarity Analysis) is guarded. You have your own scratch git worktree of the library at {wt} (source in {wt}/src/rsatoolbox, tests in {wt}/tests). Work ONLY inside {wt}; never read or write /repo or /verif or any other directory outside {wt} (reading the installed third-party packages under /venv is fine). The interpreter is /venv/bin/python; run code against your worktree with PYTHONPATH={wt}/src (check that rsatoolbox.__file__ points into your worktree). There is no network.
 
@@ -14,10 +18,10 @@ STATEMENT: {p['statement']}
 
 QUANTIFIED OVER: {p['quantifier']['text']}
 
-Your task: produce TWO independent, realistic changes to the library source (each its own patch, touching different mechanisms or code sites) that BREAK this property while the library still imports and the existing test suite still passes completely. Think of the kind of regression a well-meaning refactoring, optimisation or 'small cleanup' could introduce. Each change must need something specific to manifest - an unusual but valid input (particular sizes, label types or orders, ties, unbalanced designs, NaN positions, option combinations), a multi-step sequence of operations, or two cooperating code sites that each look fine alone - NOT something that ordinary use or the most basic call would expose at once. Do not edit tests, do not add files to the package, do not touch the compiled extension (src/rsatoolbox/cengine/*.so, *.pyx, *.c); change only .py files under src/rsatoolbox. Keep each change small (a few lines).
+Your task: produce TWO independent, realistic changes to the library source (each its own patch, touching different mechanisms or code sites) that BREAK this property while the library still imports and the existing test suite still passes completely. Think of the kind of regression a well-meaning refactoring, optimisation or 'small cleanup' could introduce. Each change must need something specific to manifest - an unusual but valid input (particular sizes, label types or orders, ties, unbalanced designs, NaN positions, option combinations), a multi-step sequence of operations, or two cooperating code sites that each look fine alone - NOT something that ordinary use or the most basic call would expose at once. Do not edit tests, do not add files to the package, do not touch the compiled extension (src/rsatoolbox/cengine/*.so, *.pyx, *.c); change only .py files under src/rsatoolbox. Keep each change small (a few lines).{avoid}
 
 For each change i in (1, 2) deliver, inside {wt}/seed/:
   - change<i>.diff : unified diff produced with `git -C {wt} diff -- src > seed/change<i>.diff` (relative to the repo root, applies with `git apply`), containing only that change;
   - demo<i>.py : a small self-contained program (no pytest needed) that exits 0 on the unchanged code and exits 1 (printing what went wrong) with the change applied - it demonstrates the violation of the property through the public API;
   - notes<i>.md : what the change does, which part of the property it breaks, and exactly what is needed for it to manifest.
-Procedure for each change: apply it in the worktree, run the full test suite `cd {wt} && PYTHONPATH={wt}/src /venv/bin/python -m pytest -q -p no:cacheprovider -x tests` (takes 1-3 minutes; it must pass exactly as it does without the change - run it once on the clean worktree first to know the baseline), run the demo (must exit 1), save the diff, then `git -C {wt} checkout -- src` and run the demo again (must exit 0). Leave the worktree clean (no applied change) at the end, with only the seed/ directory added. In your final message list the files and summarise each change in two sentences.""")
+Procedure for each change: apply it in the worktree, run the full test suite `cd {wt} && PYTHONPATH={wt}/src /venv/bin/python -m pytest -q -p no:cacheprovider tests` (takes 1-3 minutes; the clean worktree already has a handful of failing or erroring tests in test_demo and test_vis caused by the sandbox - run the suite once on the clean worktree first to get the baseline list; with your change the set of passing tests must be exactly the same), run the demo (must exit 1), save the diff, then `git -C {wt} checkout -- src` and run the demo again (must exit 0). Leave the worktree clean (no applied change) at the end, with only the seed/ directory added. In your final message list the files and summarise each change in two sentences.""")
